@@ -146,7 +146,7 @@ func genInput2(o genOpts) (byte, []byte, string, string) {
 	kind := simrt.ChoiceBias("in.kind", 6, 0.35)
 	var b []byte
 	var marks ref.Marks
-	if simrt.Flip("in.long-or-large", 0.02) {
+	if simrt.Flip("in.long-or-large", 0.008) {
 		kind = 6 + ch("in.long-or-large-kind", 2)
 	}
 	switch kind {
@@ -404,10 +404,16 @@ func RunC03(cfg simrt.Config, o world.Opts) *world.Result {
 		if o.Tier == "thorough" {
 			D = 12
 		}
+		if len(b) > 1<<20 {
+			D = 2 // megabytes, possibly delivered byte by byte: two schedules are enough
+		}
 		for d := 0; d < D; d++ {
 			faulted := d%3 == 2
 			plan := simio.GenPlan(len(b), faulted)
 			plan.Start = start
+			if plan.Seekable && !faulted && simrt.Flip("io.seek-fails", 0.15) {
+				plan.SeekFails = true // an *os.File over a pipe: Seek is there and fails
+			}
 			which := ch("c03.reader-kind", 3)
 			var got outcome
 			name := ""
@@ -469,7 +475,9 @@ func RunC03(cfg simrt.Config, o world.Opts) *world.Result {
 				if base.ok {
 					switch {
 					case !effective:
-						if !got.ok {
+						if !got.ok && plan.SeekFails {
+							// the reader's Seek failed: an error is a fair answer, a wrong length is not
+						} else if !got.ok {
 							res.Failf("C03/skip-failed", "decode succeeds (consumed %d) but skip over %s failed: %s", base.used, plan, got)
 						} else if got.used != base.used {
 							res.Failf("C03/skip-length", "decode consumed %d bytes but skip over %s consumed %d", base.used, plan, got.used)
